@@ -59,7 +59,8 @@ func (s *Stream) Recv(msg any) error {
 			buf = slices.Grow(buf, need-cap(buf))
 		}
 		n, err := s.inner.Read(buf[read:need])
-		if err != nil {
+		// Process the n > 0 bytes returned before considering the error, as io.Reader requires.
+		if err != nil && n == 0 {
 			return err
 		}
 		if n == 0 {
@@ -75,6 +76,9 @@ func (s *Stream) Recv(msg any) error {
 		}
 		if read >= need {
 			return UnmarshalTTLV(buf[:need], msg)
+		}
+		if err != nil {
+			return err
 		}
 	}
 }
